@@ -125,6 +125,7 @@ def scenario_classes():
             self.b = vsc.rand_int_t(6)
             self.c = vsc.rand_bit_t(5)
             self.u = vsc.rand_bit_t(3)       # unconstrained
+            self.ue = vsc.rand_enum_t(EK)    # unconstrained enum (drawn directly from its value list)
 
         @vsc.constraint
         def cab(self):
@@ -143,7 +144,7 @@ def read(name, o):
         return [[int(x) for x in o.l], [int(x) for x in o.f], int(o.n)]
     if name == "nest":
         return [int(o.p.x), int(o.p.y), int(o.q.x), int(o.q.y), int(o.k), [[int(e.x), int(e.y)] for e in o.arr]]
-    return [int(o.a), int(o.b), int(o.c), int(o.u)]
+    return [int(o.a), int(o.b), int(o.c), int(o.u), int(o.ue)]
 
 
 def do_call(name, o, i, kw):
@@ -190,6 +191,13 @@ def noise(kind, classes, aux):
         t.randomize()
 
 
+def mkstate(seed):
+    """even seeds use the two-argument form (numeric seed + hierarchical name)"""
+    if seed % 2 == 0:
+        return RandState.mkFromSeed(seed, "top.env.agent%d" % seed)
+    return RandState.mkFromSeed(seed)
+
+
 def transcript(name, seed, noise_at=(), noise_kind=None, kw=None, srcinfo=False):
     classes = scenario_classes()
     C = classes[name]
@@ -198,7 +206,7 @@ def transcript(name, seed, noise_at=(), noise_kind=None, kw=None, srcinfo=False)
         C = vsc.randobj(srcinfo=True)(C.__mro__[2]) if False else C
     o = C()
     aux = {"o": classes["plain"]()}
-    o.set_randstate(RandState.mkFromSeed(seed))
+    o.set_randstate(mkstate(seed))
     out = []
     kw = kw or {}
     for i in range(NCALLS):
@@ -210,7 +218,7 @@ def transcript(name, seed, noise_at=(), noise_kind=None, kw=None, srcinfo=False)
 
 
 SCENARIOS = ["order", "dist", "list", "nest", "plain"]
-SEEDS = [1, 7]
+SEEDS = [1, 8]
 
 
 # ------------------------------------------------------------------ (d) hash permutations
@@ -293,7 +301,7 @@ def snapshot_job(name, seed):
     base = transcript(name, seed)
     # take a snapshot at every step i
     o = C()
-    o.set_randstate(RandState.mkFromSeed(seed))
+    o.set_randstate(mkstate(seed))
     snaps = []
     vals = []
     for i in range(NCALLS):
@@ -321,7 +329,7 @@ def snapshot_job(name, seed):
                                  "suffix was %r" % (i, j, rep, got, base[i:])))
                     break
     # set_randstate copies its argument: advancing the object must not advance the caller's state
-    rs = RandState.mkFromSeed(seed)
+    rs = mkstate(seed)
     o3 = C()
     o3.set_randstate(rs)
     do_call(name, o3, 0, {})
@@ -334,7 +342,7 @@ def snapshot_job(name, seed):
             read(name, o3), read(name, o4), base[0])))
     # advancing a snapshot must not change the object
     o5 = C()
-    o5.set_randstate(RandState.mkFromSeed(seed))
+    o5.set_randstate(mkstate(seed))
     s5 = o5.get_randstate()
     for _ in range(10):
         s5.randint(0, 1000)
@@ -373,7 +381,24 @@ def globalseed_job(name):
     for i in range(NCALLS):
         do_call(name, o, i, {})
         t.append(read(name, o))
-    return {"viol": viol, "n": 3, "differs_with_other_seed": t != outs[0]}
+    # a snapshot taken from an object that was never given a state must replay what followed it
+    random.seed(777)
+    classes = scenario_classes()
+    o = classes[name]()
+    snap = o.get_randstate()
+    first = []
+    for i in range(NCALLS):
+        do_call(name, o, i, {})
+        first.append(read(name, o))
+    o.set_randstate(snap)
+    again = []
+    for i in range(NCALLS):
+        do_call(name, o, i, {})
+        again.append(read(name, o))
+    if first != again:
+        viol.append(("unseeded_snapshot", "get_randstate() of a never-seeded object, restored later, does not replay the values "
+                     "that followed it: %r vs %r" % (again, first)))
+    return {"viol": viol, "n": 5, "differs_with_other_seed": t != outs[0]}
 
 
 def subprocess_transcripts(hashseed):
